@@ -626,12 +626,43 @@ func isNullValue(fd protoreflect.FieldDescriptor) bool {
 	return ed != nil && ed.FullName() == "google.protobuf.NullValue"
 }
 
+// ownField returns msg's own descriptor for the field fd. Handlers registered
+// for one method (a second backend, a re-registered connection, a local
+// service) may carry descriptor instances other than those of the bound rule.
+func ownField(msg protoreflect.Message, fd protoreflect.FieldDescriptor) (protoreflect.FieldDescriptor, error) {
+	md := msg.Descriptor()
+	if fd.Parent() == md {
+		return fd, nil
+	}
+	own := md.Fields().ByNumber(fd.Number())
+	if own == nil || own.Name() != fd.Name() || own.Kind() != fd.Kind() || own.Cardinality() != fd.Cardinality() {
+		return nil, status.Errorf(codes.Internal, "field %s does not match %s", fd.FullName(), md.FullName())
+	}
+	return own, nil
+}
+
+// mutablePath walks the message fields fds down from msg.
+func mutablePath(msg protoreflect.Message, fds []protoreflect.FieldDescriptor) (protoreflect.Message, error) {
+	for _, fd := range fds {
+		fd, err := ownField(msg, fd)
+		if err != nil {
+			return nil, err
+		}
+		msg = msg.Mutable(fd).Message()
+	}
+	return msg, nil
+}
+
 type params []param
 
 func (ps params) set(m proto.Message) error {
 	for _, p := range ps {
 		cur := m.ProtoReflect()
 		for i, fd := range p.fds {
+			fd, err := ownField(cur, fd)
+			if err != nil {
+				return err
+			}
 			if len(p.fds)-1 == i {
 				switch {
 				case fd.IsList():
